@@ -1,0 +1,10 @@
+//go:build verif
+
+package ir
+
+import "sync/atomic"
+
+// VerifRenamerCalls counts invocations of the SCEV renamer closure (verification builds only).
+var VerifRenamerCalls atomic.Int64
+
+func verifCountRenamer() { VerifRenamerCalls.Add(1) }
